@@ -68,7 +68,25 @@ Example C08_nonvacuous :
      = [OCalls [CNext (RItem (MReq 1 1000 7 6)); CNext RPending; CReady TOk; CFlush TOk]; OPending; OGauges 1 1].
 Proof. vm_compute. split; reflexivity. Qed.
 
+From TarpcV Require Import ServerFuel ServerSpec ServerProofsPA4 ServerProofsPB6 ServerProofsPC10 ServerProofsPC3.
+
+(* THE MONITOR THEOREM.  For EVERY transport (any state type, behaviour, environment acting on it
+   between ops, fuel measure that decreases with every item handed out), configuration and op
+   list, the C08 monitor accepts the run of the server model: every request read is offered to
+   the application exactly once unless its id is still in flight (then it is ignored), at most
+   one response per accepted request is written, only with the value its own handler produced,
+   not after its cancellation / expiry / the channel's drop, and every response written answers
+   a request read on this channel.  The monitor carries its two hypotheses itself, as predicates
+   on the trace: reuse_only_after_completion (B1, necessary: C08_reuse_after_cancel_refuted) and
+   stops_after_error. *)
+Theorem C08_monitor : forall (T C : Type) (tp : transport T response cmsg) (ctl : T -> C -> T)
+    (tfuel : T -> nat) (c : cfg) (t0 : T) (ops : list (op C)),
+  tfuel_ok tp tfuel ->
+  c08_ok c ops (fst (run tp ctl tfuel c t0 ops)) = true.
+Proof. exact s08_proved. Qed.
+
 Print Assumptions C08_duplicate_ignored.
 Print Assumptions C08_response_untracked_dropped.
 Print Assumptions C08_response_tracked_written_once.
 Print Assumptions C08_reuse_after_cancel_refuted.
+Print Assumptions C08_monitor.
